@@ -44,6 +44,16 @@ CLAIMED = {
   note="Trusted: Go type checker, go/ssa, the explorer and its branch history.",
   technique="path-sensitive SSA typestate/ordering analysis (count-to-zero guard, effect sequences on failure paths), custom checker",
   ref="DESIGN.md section 4 C11"),
+ "C05": dict(
+  text="Static analysis: every store to a waiter's deadline has the value-origin now + T*unit + 1 with the unit selected by the matching flag tests on the path and the period widened before scaling (pure integer helpers are seen through); the second-wheel sweeper selects an entry only on timeoutTime <= now and retires the long-wait table only after Len() pops; wheel constants and slot choice keep entries ahead of the sweeper; requests queue only with Timeout > 0. The lower bound 'never early' follows from these for the second/minute wheels; the upper bound T+2 s and liveness of the sweepers are run-time quantities and are not decided, hence 'other'.",
+  note="Trusted: Go type checker, go/ssa, the explorer's canonical value-origin expressions; tabled exceptions (keep-alive re-arm, clamp to sweeper position, constructor zero) in internal/rules/c05.go.",
+  technique="value-origin (affine formula) analysis on canonical SSA expressions + path-sensitive guard dominance + constant relations, custom checker",
+  ref="DESIGN.md section 4 C05/C06"),
+ "C06": dict(
+  text="Static analysis: every store to a hold's deadline is start + E*unit + 1 (start = current time, or the lock's startTime set from it on the same path) with matching unit flags, or the never-expiring sentinel only under the unlimited flag; never-early guard and complete long-table sweep in the expiry sweeper; wheel constants incl. the 10 s bound on the re-check back-off; doExpried's effect order (tombstone, free capacity, remove under the mutex; EXPRIED notice and wake-up after it); an update that changes the deadline of a long-table hold moves its entry. Upper bounds E+2 s / 10 s depend on sweeper liveness and are not decided, hence 'other'.",
+  note="Trusted: as C05; tabled exceptions (not-yet-granted zero, keep-alive and follower re-arm, clamp) in internal/rules/c05.go.",
+  technique="value-origin (affine formula) analysis on canonical SSA expressions + path-sensitive ordering/guard analysis + constant relations, custom checker",
+  ref="DESIGN.md section 4 C05/C06"),
 }
 
 NA = {
